@@ -121,4 +121,49 @@ theorem alookup_append (k : κ) (l₁ l₂ : List (κ × α)) :
     · simp [alookup_cons, h]
     · simp [alookup_cons, h, ih]
 
+theorem ainsert_cons (k k' : κ) (v v' : α) (l : List (κ × α)) :
+    ainsert k v ((k', v') :: l) = if k' = k then (k', v) :: l else (k', v') :: ainsert k v l := rfl
+
+theorem aerase_cons (k k' : κ) (v' : α) (l : List (κ × α)) :
+    aerase k ((k', v') :: l) = if k' = k then l else (k', v') :: aerase k l := rfl
+
+/-- Assigning a key and then deleting it is the same as just deleting it. -/
+theorem aerase_ainsert_same (k : κ) (v : α) (l : List (κ × α)) :
+    aerase k (ainsert k v l) = aerase k l := by
+  induction l with
+  | nil => simp only [ainsert, aerase, if_true]
+  | cons p l ih =>
+    obtain ⟨k', v'⟩ := p
+    by_cases h : k' = k
+    · rw [ainsert_cons, if_pos h, aerase_cons, if_pos h, aerase_cons, if_pos h]
+    · rw [ainsert_cons, if_neg h, aerase_cons, if_neg h, aerase_cons, if_neg h, ih]
+
+/-- The same with the deletion of another key in between. -/
+theorem aerase_aerase_ainsert (k k' : κ) (v : α) (l : List (κ × α)) (hne : k ≠ k') :
+    aerase k (aerase k' (ainsert k v l)) = aerase k (aerase k' l) := by
+  induction l with
+  | nil => simp only [ainsert, aerase, hne, if_true, if_false]
+  | cons p l ih =>
+    obtain ⟨k'', v''⟩ := p
+    by_cases h : k'' = k
+    · have h' : ¬ k'' = k' := fun e => hne (h.symm.trans e)
+      rw [ainsert_cons, if_pos h, aerase_cons, if_neg h', aerase_cons, if_pos h,
+        aerase_cons, if_neg h', aerase_cons, if_pos h]
+    · by_cases h2 : k'' = k'
+      · rw [ainsert_cons, if_neg h, aerase_cons, if_pos h2, aerase_cons, if_pos h2,
+          aerase_ainsert_same]
+      · rw [ainsert_cons, if_neg h, aerase_cons, if_neg h2, aerase_cons, if_neg h,
+          aerase_cons, if_neg h2, aerase_cons, if_neg h, ih]
+
+/-- Re-assigning the key that was just appended at the end replaces it there. -/
+theorem ainsert_append_singleton (k : κ) (v v' : α) (l : List (κ × α)) (h : k ∉ akeys l) :
+    ainsert k v (l ++ [(k, v')]) = l ++ [(k, v)] := by
+  induction l with
+  | nil => simp only [List.nil_append, ainsert, if_true]
+  | cons p l ih =>
+    obtain ⟨k', w⟩ := p
+    have hk : ¬ k' = k := fun e => h (e ▸ List.mem_cons_self)
+    have hl : k ∉ akeys l := fun hm => h (List.mem_cons_of_mem _ hm)
+    rw [List.cons_append, ainsert_cons, if_neg hk, ih hl, List.cons_append]
+
 end Asphalt
